@@ -32,12 +32,13 @@ RULE += (' Also: iterators drawn from async iterables are owned by the tool that
 RULE += (' Also: end-of-iteration exceptions raised by user callables or thrown in by the consumer.')
 RULE += (' Also: a class-based source that reports its remaining length (sized shortcuts still own and close it).')
 RULE += (' Also: one of several inputs that is not iterable at all - the tool that reports it has ended and lets go of the others; groupby keys failing with Stop(Async)Iteration / GeneratorExit / RuntimeError.')
+RULE += (' Also: class sources whose aclose is a plain method handing back a future-like close job.')
 ASSUMPTIONS = ["sources' own aclose never suspends or fails", "sync iterables have nothing to release",
                "a generator-based tool closed before its first step runs no code (language semantics): sources need "
                "not be closed then, except for handles that advertise eager closing (chain, tee, groupby)"]
 EXHAUSTIVE = {"quick": False, "thorough": False}
 N_SPECS = {"quick": 12000, "thorough": 600000}
-SRC_FL = ["async_gen", "async_class", "async_class", "async_class_bare", "list", "async_class_proxy", "async_class_future", "async_iterable", "async_class_lateclose", "async_class_sized"]
+SRC_FL = ["async_gen", "async_class", "async_class", "async_class_bare", "list", "async_class_proxy", "async_class_future", "async_iterable", "async_class_lateclose", "async_class_sized", "async_class_closejob"]
 EAGER = {"chain"}  # handles closing what they own even if never advanced (tee/groupby handled separately)
 
 
@@ -137,7 +138,7 @@ def _leaks(side, spec, flavs, outer_flav):
     n_closable = 0
     for st, f in pairs:
         # (the iterator a tool draws from an async ITERABLE is the tool's own as well)
-        if f not in ("async_gen", "async_class", "async_class_full", "async_class_proxy", "async_class_future", "async_iterable", "async_class_sized"):
+        if f not in ("async_gen", "async_class", "async_class_full", "async_class_proxy", "async_class_future", "async_iterable", "async_class_sized", "async_class_closejob"):
             continue
         if f == "async_iterable" and not st.given:
             continue  # never asked for an iterator: there is nothing anybody could own
